@@ -324,7 +324,7 @@ def run(ctx) -> None:
                         return False
                     if isinstance(base, ast.Subscript) and norm(base.slice) == gv:
                         bres = CS.rnorm(base.value, at)
-                        return ar[0] in (f"{gv}[0]",) and ar[1] in (f"{gv}[1]",) and ar[2] == "self.select_bands" and bres.startswith("values[")
+                        return ar[0] in (f"{gv}[0]",) and ar[1] in (f"{gv}[1]",) and ar[2] == "self.select_bands" and bres.startswith(("values[", "self._"))
             return False
         b0 = acc_store(li.body[0]) if li.body else None
         okb0 = b0 is not None and b0[2] is None and gv is not None and result_index_ok(b0[1], cfg.node(li.body[0])) and value_ok(b0[3], cfg.node(li.body[0]), True)
@@ -491,7 +491,7 @@ def run(ctx) -> None:
     infos = []
     for S_, g_, c_ in trace_sites(idx, call):
         info = classify_trace(S_, c_)
-        info["call"], info["sem"] = c_, S_
+        info["call"], info["sem"], info["func"] = c_, S_, g_
         infos.append(info)
     seas = [i_ for i_ in infos if i_["kind"] == "sea"]
     grps = [i_ for i_ in infos if i_["kind"] == "group"]
@@ -501,15 +501,22 @@ def run(ctx) -> None:
         sc = seas[0]["call"]
         Q = str(seas[0]["Q"])
         holder = None
-        par = pm.get(sc)
-        st_ = enclosing(pm, sc, ast.stmt)
-        if isinstance(st_, ast.Assign) and isinstance(st_.targets[0], ast.Subscript) and st_.value is sc and CS.rnorm(st_.targets[0].slice, cfg.node(st_)) == Q:
+        SS6 = seas[0]["sem"]
+        g6 = seas[0].get("func") or call
+        pm6 = SS6.pm if g6 is not call else pm
+        par = pm6.get(sc)
+        st_ = enclosing(pm6, sc, ast.stmt)
+        if g6 is not call and isinstance(st_, ast.Assign) and isinstance(st_.targets[0], ast.Subscript) and st_.value is sc \
+                and SS6.rnorm(st_.targets[0].slice, SS6.cfg.node(st_)) == Q:
             holder = norm(st_.targets[0].value)
-        dc = enclosing(pm, sc, ast.DictComp)
+        if g6 is call and isinstance(st_, ast.Assign) and isinstance(st_.targets[0], ast.Subscript) and st_.value is sc and CS.rnorm(st_.targets[0].slice, cfg.node(st_)) == Q:
+            holder = norm(st_.targets[0].value)
+        dc = enclosing(pm6, sc, ast.DictComp)
         if holder is None and dc is not None and dc.value is sc and norm(dc.key) == Q and isinstance(st_, ast.Assign) and st_.value is dc:
             holder = norm(st_.targets[0])
         if holder is not None:
-            for n_ in ast.walk(call.node):
+            pm = pm6
+            for n_ in ast.walk(g6.node):
                 if isinstance(n_, ast.BinOp) and isinstance(n_.op, ast.Sub) and isinstance(n_.left, ast.Subscript) and isinstance(n_.right, ast.Subscript) \
                         and norm(n_.left.value) == holder == norm(n_.right.value):
                     hi, lo = norm(n_.left.slice), norm(n_.right.slice)
